@@ -619,3 +619,38 @@ def known_icase_class_escape(ctx):
     funcs=[R + ':translate_pattern', 'elementpath/regex/character_classes.py:CharacterClass'])
 def known_icase_subtraction(ctx):
     return _icase_sweep(dict(ctx, tier='quick'), I_KNOWN['C12-icase-subtraction'])
+
+
+# --- added after round-3 seeded changes: bracket expressions whose members are merged in several steps (a later member covering earlier ones);
+#     blocks introduced by the Unicode version of the running interpreter -----------------------------------------------------------------------
+
+import unicodedata as _ud  # noqa: E402
+_UV = tuple(int(x) for x in _ud.unidata_version.split('.'))
+BLOCKS_BY_VERSION = [((15, 0, 0), 'Kawi', (0x11F00, 0x11F5F)), ((15, 0, 0), 'CyrillicExtended-D', (0x1E030, 0x1E08F)),
+                     ((14, 0, 0), 'Vithkuqi', (0x10570, 0x105BF)), ((13, 0, 0), 'Yezidi', (0x10E80, 0x10EBF)), ((3, 1, 0), 'Gothic', (0x10330, 0x1034F))]
+for _v, _name, _rng in BLOCKS_BY_VERSION:
+    if _UV >= _v:
+        BLOCKS[_name] = [_rng]
+EXTRA_ATOMS = ['[dh\\sa-z]', '[a-z\\sdh]', '[dha-z]', '[ceb-y]', '[cea-b]', '[\\p{Lu}\\p{L}]', '[\\p{L}\\p{Lu}]', '[\\p{Pd}\\p{P}]', '[\\p{Nd}0-9a]', '[b-df-ha-z]',
+               '[^dha-z]', '[x\\p{Lu}\\p{L}-[A-C]]'] \
+    + [t % n for _v, n, _r in BLOCKS_BY_VERSION if _UV >= _v for t in ('\\p{Is%s}', '\\P{Is%s}', '[\\p{Is%s}a]', '[^\\p{Is%s}]')]
+
+
+@ob(engine='z3', budget=300, bound='all subject strings; bracket expressions whose members are merged in several steps and the blocks of the Unicode '
+    'versions up to the running interpreter\'s (independent block ranges), each alone and with * (XSD 1.0 and XPath anchored mode)',
+    funcs=[R + ':translate_pattern', 'elementpath/regex/unicode_subsets.py:UnicodeSubset.add', 'elementpath/regex/unicode_subsets.py:UnicodeData.__init__'])
+def language_extra_atoms(ctx):
+    q = Queries(timeout_s=20, diff_binary=False)
+    cex = []
+    counts = {}
+    for a in EXTRA_ATOMS:
+        for p in (a, a + '*', 'x' + a):
+            if _is_known(p):
+                continue
+            for xpath in (False, True):
+                r = _decide(p, '1.0', False, q, cex, 'P=%r xsd=1.0%s' % (p, ' xpath' if xpath else ''), xpath=xpath)
+                counts[r] = counts.get(r, 0) + 1
+    q.samples.extend(['%r' % p for p in EXTRA_ATOMS[:12]])
+    res = q.result(cex[:20], detail=dict(programs=sum(counts.values()), outcomes=counts, distinct_patterns=3 * len(EXTRA_ATOMS)))
+    res['detail']['queries'] = [x for x in q.log if x.get('result') != 'unsat'][:60]
+    return res
